@@ -195,6 +195,35 @@ def c18_sinks(ctx: Ctx):
                                         f'effect {eff} is not allowed on a {pv} path in {m.name}'))
 
 
+@rule('C18.WRITES-STAY-HOME', ['C18'])
+def c18_writes_stay_home(ctx: Ctx):
+    """Only LocalStorage's own methods (whose path operands C18.SINKS vets) and the standard library change the
+    filesystem: a package helper reached from LocalStorage that creates, writes or removes files itself - a hand-rolled
+    recursive delete, say - works on paths this analysis has not confined (and shutil.rmtree's refusal to follow
+    symbolic links is lost)."""
+    c = local_storage(ctx)
+    n = 0
+    for m in sorted(c.methods.values(), key=lambda f: f.node.lineno):
+        for call in calls_in(m.node):
+            for q in ctx.P.resolve_call(call, m, by_name=False):
+                f0 = ctx.P.funcs.get(q)
+                if f0 is None or f0.cls is c or (f0.cls is not None and f0.cls in ctx.P.mro(c)):
+                    continue
+                n += 1
+                bad = []
+                for f in ctx.P.closure([f0], include_nested=True):
+                    if f.cls is c:
+                        continue
+                    for (scall, operand, eff, is_write) in sinks(ctx, f):
+                        if is_write:
+                            bad.append((f, scall, eff))
+                ok = not bad
+                yield ctx.ob('C18.WRITES-STAY-HOME', ok, m, call, f'{f0.short} reached from {m.name} changes no files itself',
+                             '' if ok else f'{bad[0][0].short} performs {bad[0][2]} (`{src(bad[0][1])[:50]}`) on a path handed to it by LocalStorage.{m.name}: '
+                             'filesystem changes outside LocalStorage are not confined to the storage directory by the validator / do not refuse symbolic links')
+    yield ctx.ob('C18.WRITES-STAY-HOME', True, None, None, f'{n} package helpers reached from LocalStorage scanned', construct='scan', path='labtech/storage.py')
+
+
 @rule('C18.KEY-TO-PATH', ['C18'])
 def c18_key_to_path(ctx: Ctx):
     """_key_to_path validates the very key it converts, against the storage root, before returning
